@@ -996,11 +996,27 @@ enum BlockingMode {
     Timeout(Duration),
 }
 
-#[allow(clippy::uninit_vec, clippy::type_complexity)]
+#[allow(clippy::type_complexity)]
 fn recv(
     fd: c_int,
     blocking_mode: BlockingMode,
 ) -> Result<(Vec<u8>, Vec<OsOpaqueIpcChannel>, Vec<OsIpcSharedMemory>), UnixError> {
+    loop {
+        // `None` means that the sender of a fragmented message went away half-way through it
+        // (its process died, or its send failed after the first fragment).
+        // That says nothing about the other senders of this channel:
+        // drop what we got of that message and carry on with the next one.
+        if let Some(message) = recv_one(fd, blocking_mode)? {
+            return Ok(message);
+        }
+    }
+}
+
+#[allow(clippy::uninit_vec, clippy::type_complexity)]
+fn recv_one(
+    fd: c_int,
+    blocking_mode: BlockingMode,
+) -> Result<Option<(Vec<u8>, Vec<OsOpaqueIpcChannel>, Vec<OsIpcSharedMemory>)>, UnixError> {
     let (mut channels, mut shared_memory_regions) = (Vec::new(), Vec::new());
 
     // First fragments begins with a header recording the total data length.
@@ -1048,7 +1064,7 @@ fn recv(
 
     if total_size == main_data_buffer.len() {
         // Fast path: no fragments.
-        return Ok((main_data_buffer, channels, shared_memory_regions));
+        return Ok(Some((main_data_buffer, channels, shared_memory_regions)));
     }
 
     // Reassemble fragments.
@@ -1090,12 +1106,13 @@ fn recv(
 
         match result.cmp(&0) {
             cmp::Ordering::Greater => continue,
-            cmp::Ordering::Equal => return Err(UnixError::ChannelClosed),
+            // The dedicated channel was closed before the message was complete.
+            cmp::Ordering::Equal => return Ok(None),
             cmp::Ordering::Less => return Err(UnixError::last()),
         }
     }
 
-    Ok((main_data_buffer, channels, shared_memory_regions))
+    Ok(Some((main_data_buffer, channels, shared_memory_regions)))
 }
 
 // https://github.com/servo/ipc-channel/issues/192
